@@ -109,6 +109,54 @@ func checkC19(ctx *Ctx) {
 			}
 			return d
 		}
+		// Phase 0 — first use under concurrency: a second, freshly parsed copy of the shared
+		// values is handed to the goroutines BEFORE anything has been called on it (lazily filled
+		// caches are written on first use); the answers are compared with the sequential answers
+		// computed below on the first copy.
+		fresh := &Pool{Eco: e}
+		for _, s := range p.Strs {
+			if pr := e.Parse(s); pr.OK {
+				fresh.Strs = append(fresh.Strs, s)
+				fresh.Vals = append(fresh.Vals, pr.Val)
+			}
+		}
+		var freshR []any
+		for _, t := range rtexts {
+			if pr := e.ParseRange(t); pr.OK {
+				freshR = append(freshR, pr.Val)
+			}
+		}
+		firstUse := make([][]string, G)
+		if len(fresh.Vals) == len(p.Vals) && len(freshR) == len(rvals) {
+			var wg0 sync.WaitGroup
+			for g := 0; g < G; g++ {
+				g := g
+				wg0.Add(1)
+				go func() {
+					defer wg0.Done()
+					out := make([]string, len(qs))
+					rg := NewRNG(ctx.Seed+uint64(g)*104729, "C19/first/"+e.Name)
+					for _, i := range rg.Perm(len(qs)) {
+						q := qs[i]
+						switch q.kind {
+						case "Compare":
+							c, pan := e.Compare(fresh.Vals[q.i], fresh.Vals[q.j])
+							out[i] = fmt.Sprint(c) + pan
+						case "Contains":
+							c, pan := e.Contains(freshR[q.j], fresh.Vals[q.i])
+							out[i] = fmt.Sprint(c) + pan
+						case "String":
+							s, pan := e.Str(fresh.Vals[q.i])
+							out[i] = s + pan
+						default:
+							out[i] = "-"
+						}
+					}
+					firstUse[g] = out
+				}()
+			}
+			wg0.Wait()
+		}
 		before := dump()
 		seq := make([]string, len(qs))
 		for i, q := range qs {
@@ -117,6 +165,15 @@ func checkC19(ctx *Ctx) {
 				nontrivial++
 			}
 		}
+		for g := range firstUse {
+			for i, got := range firstUse[g] {
+				if got != "" && got != "-" && got != seq[i] {
+					res.violate(Violation{Eco: e.Name, Kind: "result-differs-under-concurrency", Input: map[string]any{"query": qs[i].kind, "args": queryArgs(p, rtexts, qs[i].i, qs[i].j, qs[i].text, qs[i].version), "goroutine": g, "phase": "first use of freshly parsed shared values"},
+						Expected: seq[i] + " (sequential answer)", Actual: got})
+				}
+			}
+		}
+		res.Evaluations += len(qs) * G
 		var wg sync.WaitGroup
 		var mu sync.Mutex
 		for g := 0; g < G; g++ {
